@@ -3,6 +3,7 @@
 package c04
 
 import (
+	"context"
 	"encoding/binary"
 	"encoding/json"
 	"fmt"
@@ -66,6 +67,10 @@ type Park struct {
 	Point string `json:"point"` // store.fetch.exit | store.store.enter | store.batch.enter | store.fetch.enter
 	Key   int    `json:"key"`
 	MS    int    `json:"ms"`
+	// Cancel = r+1 > 0: at the moment the park is hit, the context of request r of the round is
+	// cancelled (its client has gone away).  Whatever that request is answered, the round must still
+	// be explainable with that request either processed at some point or not at all.
+	Cancel int `json:"cancel,omitempty"`
 }
 
 // Round is a set of concurrent requests.
@@ -89,7 +94,7 @@ func genRound(t *rapid.T) Round {
 	n := rapid.IntRange(2, 6).Draw(t, "nreq")
 	for i := 0; i < n; i++ {
 		kind := rapid.SampledFrom([]string{"attest", "attest", "attests", "attests", "propose"}).Draw(t, "kind")
-		q := Req{Kind: kind, DelayUS: rapid.SampledFrom([]int{0, 0, 0, 50, 300, 1500}).Draw(t, "delay"), ViaGRPC: rapid.IntRange(0, 4).Draw(t, "grpc") == 0}
+		q := Req{Kind: kind, DelayUS: rapid.SampledFrom([]int{0, 0, 0, 50, 300, 1500, 12000}).Draw(t, "delay"), ViaGRPC: rapid.IntRange(0, 4).Draw(t, "grpc") == 0}
 		switch kind {
 		case "attests":
 			perm := rapid.Permutation([]int{0, 1, 2}).Draw(t, "perm")
@@ -109,6 +114,9 @@ func genRound(t *rapid.T) Round {
 			Key:   rapid.IntRange(0, nKeys-1).Draw(t, "pkey"),
 			MS:    rapid.SampledFrom([]int{1, 3, 8}).Draw(t, "ms"),
 		})
+		if rapid.IntRange(0, 3).Draw(t, "cancel") == 0 {
+			r.Parks[len(r.Parks)-1].Cancel = 1 + rapid.IntRange(0, len(r.Reqs)-1).Draw(t, "cancel_req")
+		}
 	}
 
 	return r
@@ -187,10 +195,14 @@ type obs struct {
 	verdicts  []bool
 	states    []string
 	failed    bool
+	optional  bool
 }
 
 // linearizable searches for an order compatible with real time that reproduces all verdicts and
 // the final state.
+//
+// A request marked optional (cancelled by its client and answered without verdicts) may either have
+// been processed atomically at some point of the order, with whatever verdicts, or not at all.
 func linearizable(start *vkit.Model, reqs []Req, ob []obs, base uint64, final map[string][3]int64) bool {
 	n := len(reqs)
 	used := make([]bool, n)
@@ -217,6 +229,15 @@ func linearizable(start *vkit.Model, reqs []Req, ob []obs, base uint64, final ma
 			}
 			mc := m.Clone()
 			v := applyReq(mc, &reqs[i], base)
+			if ob[i].optional {
+				used[i] = true
+				if rec(mc, placed+1) || rec(m.Clone(), placed+1) {
+					return true
+				}
+				used[i] = false
+
+				continue
+			}
 			if !reflect.DeepEqual(v, ob[i].verdicts) {
 				continue
 			}
@@ -234,9 +255,9 @@ func linearizable(start *vkit.Model, reqs []Req, ob []obs, base uint64, final ma
 }
 
 type outcome struct {
-	rounds, nontrivial, parked, inconclusive int
-	classes                                  map[string]int
-	lastObs                                  []map[string]any
+	rounds, nontrivial, parked, inconclusive, cancelled, cancelledUnanswered int
+	classes                                                                  map[string]int
+	lastObs                                                                  []map[string]any
 }
 
 func conflictItems(a, b *Req) bool {
@@ -276,9 +297,16 @@ func run(c *Case) (*outcome, *vkit.Violation, error) {
 		// steering
 		var pmu sync.Mutex
 		pending := append([]Park(nil), round.Parks...)
-		var parked atomic.Int64
+		var parked, cancelled atomic.Int64
+		ctxs := make([]context.Context, len(round.Reqs))
+		cancels := make([]context.CancelFunc, len(round.Reqs))
+		wasCancelled := make([]atomic.Bool, len(round.Reqs))
+		for qi := range round.Reqs {
+			ctxs[qi], cancels[qi] = context.WithCancel(context.Background())
+		}
 		verifhook.Set(func(ev verifhook.Event) error {
 			var sleep time.Duration
+			cancel := 0
 			pmu.Lock()
 			for i := range pending {
 				p := pending[i]
@@ -293,12 +321,18 @@ func run(c *Case) (*outcome, *vkit.Violation, error) {
 				}
 				if hit {
 					sleep = time.Duration(p.MS) * time.Millisecond
+					cancel = p.Cancel
 					pending = append(pending[:i:i], pending[i+1:]...)
 
 					break
 				}
 			}
 			pmu.Unlock()
+			if cancel > 0 && cancel <= len(cancels) {
+				wasCancelled[cancel-1].Store(true)
+				cancelled.Add(1)
+				cancels[cancel-1]()
+			}
 			if sleep > 0 {
 				parked.Add(1)
 				time.Sleep(sleep)
@@ -313,6 +347,8 @@ func run(c *Case) (*outcome, *vkit.Violation, error) {
 			wg.Add(1)
 			go func(qi int) {
 				defer wg.Done()
+				defer vkit.SetBaseCtx(ctxs[qi])()
+				defer cancels[qi]()
 				q := &round.Reqs[qi]
 				ts := make([]vkit.Target, len(q.Items))
 				for i, it := range q.Items {
@@ -357,6 +393,11 @@ func run(c *Case) (*outcome, *vkit.Violation, error) {
 		wg.Wait()
 		verifhook.Set(nil)
 		o.parked += int(parked.Load())
+		o.cancelled += int(cancelled.Load())
+		if cancelled.Load() > 0 {
+			// anything a cancelled request left running gets time to land before the state is read
+			time.Sleep(25 * time.Millisecond)
+		}
 		after, err := st.Export()
 		if err != nil {
 			return o, nil, err
@@ -368,6 +409,12 @@ func run(c *Case) (*outcome, *vkit.Violation, error) {
 		o.rounds++
 		inconclusive := false
 		for qi := range ob {
+			if ob[qi].failed && wasCancelled[qi].Load() {
+				ob[qi].optional = true
+				o.cancelledUnanswered++
+
+				continue
+			}
 			if ob[qi].failed {
 				inconclusive = true
 			}
@@ -443,6 +490,8 @@ func TestC04(t *testing.T) {
 		vkit.S.ClassN("rounds", o.rounds)
 		vkit.S.ClassN("overlapping-conflicting-pairs", o.nontrivial)
 		vkit.S.ClassN("parked-at-hook", o.parked)
+		vkit.S.ClassN("request-contexts-cancelled-at-a-hook-point", o.cancelled)
+		vkit.S.ClassN("cancelled-requests-answered-without-verdict", o.cancelledUnanswered)
 		vkit.S.ClassN("inconclusive-rounds", o.inconclusive)
 		for k, n := range o.classes {
 			vkit.S.ClassN(k, n)
